@@ -117,6 +117,19 @@ func resolve(r Ref, outstanding []string) (*string, bool) {
 	return v, false
 }
 
+// artifactRef: the InResponseTo of the ArtifactResponse.  Class "authn" names an outstanding AuthnRequest ID (the
+// one Index selects) instead of the ArtifactResolve the SP issued - a plausible value, and the wrong request.
+func artifactRef(c Case, issued string) *string {
+	if c.Artifact.Class == "authn" {
+		if len(c.Outstanding) == 0 {
+			return forge.S("id-unknown")
+		}
+		return forge.S(c.Outstanding[c.Artifact.Index%len(c.Outstanding)])
+	}
+	v, _ := resolve(c.Artifact, []string{issued})
+	return v
+}
+
 func check(c Case) pbt.Result {
 	now := fix.Epoch
 	r := spkit.Baseline(now, "unused", "")
@@ -175,7 +188,7 @@ func check(c Case) pbt.Result {
 		o = spkit.ParsePOST(sp, forge.Bytes(el), c.Outstanding, spkit.SPACS)
 	case "artifact-xml":
 		issued := "id-artifact-resolve-1"
-		v, _ := resolve(c.Artifact, []string{issued})
+		v := artifactRef(c, issued)
 		artifactOK = v != nil && *v == issued
 		as := &forge.ArtifactSpec{ID: "id-art", InResponseTo: v, IssueInstant: forge.T(now), Issuer: forge.S(spkit.IDPEntity), Status: []string{forge.StatusOK}}
 		if c.ArtSigned {
@@ -203,7 +216,7 @@ func check(c Case) pbt.Result {
 			}
 			sawResolve = true
 			issued := ar.SelectAttrValue("ID", "")
-			v, _ := resolve(c.Artifact, []string{issued})
+			v := artifactRef(c, issued)
 			artifactOK = v != nil && *v == issued && issued != ""
 			as := &forge.ArtifactSpec{ID: "id-art", InResponseTo: v, IssueInstant: forge.T(now), Issuer: forge.S(spkit.IDPEntity), Status: []string{forge.StatusOK}}
 			if c.ArtSigned {
@@ -384,7 +397,7 @@ func gen(t *rapid.T) Case {
 	}
 	c.NoDest = !c.RespSigned && rapid.IntRange(0, 2).Draw(t, "nodest") == 0
 	if strings.HasPrefix(c.Entry, "artifact") && rapid.IntRange(0, 1).Draw(t, "artbad") == 0 {
-		c.Artifact = Ref{Class: rapid.SampledFrom([]string{"not", "near", "empty", "absent"}).Draw(t, "art")}
+		c.Artifact = Ref{Class: rapid.SampledFrom([]string{"not", "near", "empty", "absent", "authn", "authn"}).Draw(t, "art"), Index: rapid.IntRange(0, 2).Draw(t, "artidx")}
 		if c.Artifact.Class == "near" {
 			c.Artifact.Kind = rapid.SampledFrom(nearKindsList).Draw(t, "artkind")
 		}
@@ -394,6 +407,23 @@ func gen(t *rapid.T) Case {
 
 // enumClassProduct: outstanding sets x response-level class x confirmation-level class
 // (1 and 2 confirmations, the second varied) x AllowIDPInitiated x validator x entry point.
+// enumArtifactAnswersAuthn: the ArtifactResponse names an outstanding AuthnRequest ID (each position of each set)
+// instead of the ArtifactResolve, everything else answering that AuthnRequest.
+func enumArtifactAnswersAuthn(_ string, emit func(Case)) {
+	for _, set := range outstandingSets {
+		for i := range set {
+			for _, entry := range []string{"artifact-xml", "artifact-http"} {
+				for _, rs := range []bool{false, true} {
+					for _, as := range []bool{false, true} {
+						m := Ref{Class: "match", Index: i}
+						emit(Case{Outstanding: append([]string{}, set...), Resp: m, Confs: []Ref{m}, Methods: []string{""}, Entry: entry, Artifact: Ref{Class: "authn", Index: i}, RespSigned: rs, ArtSigned: as})
+					}
+				}
+			}
+		}
+	}
+}
+
 // enumBareConfirmations: a confirmation without any SubjectConfirmationData, alone or beside one that answers an
 // outstanding request, for every outstanding set, entry point, signing layout, plain and encrypted.
 func enumBareConfirmations(_ string, emit func(Case)) {
@@ -428,7 +458,7 @@ func enumClassProduct(tier string, emit func(Case)) {
 	}
 	crefs := append(append([]Ref{}, refs...), Ref{Class: "nodata"})
 	entries := []string{"xml", "post", "artifact-xml", "artifact-http"}
-	arts := []Ref{{Class: "match"}, {Class: "not"}, {Class: "near", Kind: "prefix"}, {Class: "near", Kind: "plusx"}, {Class: "empty"}, {Class: "absent"}}
+	arts := []Ref{{Class: "match"}, {Class: "not"}, {Class: "near", Kind: "prefix"}, {Class: "near", Kind: "plusx"}, {Class: "empty"}, {Class: "absent"}, {Class: "authn"}, {Class: "authn", Index: 1}}
 	idx := 0
 	for _, set := range outstandingSets {
 		for _, rr := range refs {
@@ -467,13 +497,13 @@ func enumClassProduct(tier string, emit func(Case)) {
 var prop = &pbt.Prop[Case]{
 	ID: "C04",
 	Rule: "cases: a genuinely IdP-signed, otherwise valid response whose InResponseTo at the Response and at each of 0-3 subject confirmations is {matching, other outstanding, not outstanding, near-miss (prefix/suffix/case/+x/space), empty, absent, or - for a confirmation - no SubjectConfirmationData element at all} (confirmations of any method: bearer, holder-of-key, sender-vouches; unsigned Responses with and without Destination) relative to a declared outstanding set " +
-		"({}, {a}, {a,b,c}, {\"\"}, {a,\"\"}, near-miss sets, random sets), crossed with AllowIDPInitiated, custom ValidateRequestID {none, accept, reject} and entry point {XML, POST, ParseXMLArtifactResponse, ParseResponse+SAMLart with a harness resolver that reads the ArtifactResolve ID the SP just issued}; " +
+		"({}, {a}, {a,b,c}, {\"\"}, {a,\"\"}, near-miss sets, random sets), crossed with AllowIDPInitiated, custom ValidateRequestID {none, accept, reject} and entry point {XML, POST, ParseXMLArtifactResponse, ParseResponse+SAMLart with a harness resolver that reads the ArtifactResolve ID the SP just issued; the ArtifactResponse answers that ID, another, a near-miss, nothing, or an outstanding AuthnRequest ID}; " +
 		"class product enumerated completely in thorough (every 7th member in quick) plus rapid draws. oracle: reference model (absent = \"\"); with AllowIDPInitiated / custom validator only the positive clause is judged; zero confirmations judged on the response-level clause only; a confirmation without data counts as absent for must-reject and makes must-accept a don't-care. " +
 		"non-trivial: outstanding set with >= 2 members, \"\" or near-miss members, response- and confirmation-level classes differ, near-miss value, or artifact entry. distinct: sha256 of the JSON case.",
 	Gen:         gen,
 	Check:       check,
 	Reset:       fix.Reset,
-	Enums:       []pbt.Enum[Case]{{Name: "class-product", Each: enumClassProduct}, {Name: "confirmations-without-data", Each: enumBareConfirmations}},
+	Enums:       []pbt.Enum[Case]{{Name: "class-product", Each: enumClassProduct}, {Name: "confirmations-without-data", Each: enumBareConfirmations}, {Name: "artifact-response-answers-the-authn-request", Each: enumArtifactAnswersAuthn}},
 	Assumptions: []string{"all other conditions (addressing, instants, signatures) are valid in every case"},
 }
 
